@@ -404,6 +404,11 @@ def gen_case(rng, index, tier):
                 text = '[Trash Info]\nDeletionDate=%s\nPath=%s\n' % (td, pv)
             else:
                 text = '[Trash Info]\nPath=%s\nDeletionDate=%s\n' % (pv, td)
+        if kind in ('boundary', 'farpast', 'future', 'normal') and rng.random() < 0.08:
+            # written on / copied through a system whose lines end in CR LF:
+            # the same entry, the same date
+            text = text.replace('\n', '\r\n')
+            e['crlf'] = True
         e['dkind'] = kind
         e['text_date'] = td
         ik = trashworld.pair_keys(e)[0]
